@@ -145,6 +145,9 @@ func (c *Core) Beh() *Beh         { return c.B }
 func (c *Core) Naming() string    { return c.B.Alias }
 func (c *Core) Qualifier() string { return c.B.Mask }
 
+// Sel is the selector method behind func-tag edges (func:"Sel,returns=<masks>").
+func (c *Core) Sel() string { return c.B.Mask }
+
 func (c *Core) AfterPropertiesSet() error {
 	c.B.APSCalls++
 	c.B.Log.Add(Event{Kind: "aps", ID: c.B.ID, Snap: Snap(c.B.Self)})
